@@ -2976,6 +2976,9 @@ impl LineBuf {
 
 								self.select_mode = Some(mode);
 							}
+							// A text object may have put the end behind the text
+							end = end.min(self.cursor.cap());
+							start = start.min(end);
 							self.select_range = Some(SelectRange::OneDim((start,end)));
 						}
 						_ => unreachable!()
